@@ -203,7 +203,12 @@ def run(ctx):
                           {"pydantic": rp.get("tree"), "fallback": rf.get("tree")})
         if "dump_err" in rp or "dump_err" in rf:
             if ("dump_err" in rp) != ("dump_err" in rf):
-                ctx.violation("dump_failure_differs", f"{cls}: {rp.get('dump_err')} / {rf.get('dump_err')}", case)
+                shadow = sorted(set(c["wire"]) & modelgen.API_NAMES) if isinstance(c.get("wire"), dict) else []
+                if shadow and "dump_err" in rf and "not callable" in str(rf.get("dump_err")):
+                    ctx.violation("api_named_extra_member_shadows_method_under_fallback",
+                                  f"{cls}: extra member(s) {shadow} - fallback dump fails ({rf.get('dump_err')}), pydantic dumps", case)
+                else:
+                    ctx.violation("dump_failure_differs", f"{cls}: {rp.get('dump_err')} / {rf.get('dump_err')}", case)
         else:
             d = first_diff(rp["dump"], rf["dump"])
             if d:
